@@ -27,9 +27,13 @@ func register(id, level string, run func(*evid.Run), replay func(json.RawMessage
 // they run in a child process and the parent turns "child died" into an observation.
 // rerun: (property/kind) pairs without a single-case replay.
 var rerun = map[string]bool{
-	"C05/tableset": true, "C05/restart-during-poll": true, "C08/stmt-overlap": true, "C09/api": true, "C13/conformance": true, "C10/txn-shape": true, "C10/conformance": true,
+	"C05/tableset": true, "C05/restart-during-poll": true, "C19/cluster": true, "C19/headers": true, "C08/stmt-overlap": true, "C09/api": true, "C13/conformance": true, "C10/txn-shape": true, "C10/conformance": true,
 	"C14/engine-sequence": true, "C14/odd-names": true, "C17/tls": true, "C17/tlsbin": true, "C18/pool": true,
 }
+
+// rerunAll: properties none of whose cases has a single-case replay (their enumerations are pure and
+// deterministic: the check itself is the replay).
+var rerunAll = map[string]bool{"C16": true, "C17": true, "C18": true}
 
 var engineChecks = map[string]bool{"C05": true, "C07": true, "C14": true, "C16": true, "C17": true, "C19": true}
 
@@ -157,7 +161,7 @@ func main() {
 		if kind == "" && probe.Reader != "" {
 			kind = "stmt-overlap"
 		}
-		if rerun[art.Property+"/"+kind] {
+		if rerun[art.Property+"/"+kind] || rerunAll[art.Property] {
 			fmt.Printf("cases of kind %q of %s have no single-case replay: the enumeration is deterministic, re-run scripts/check.sh %s quick (the artefact names the case: %s)\n", kind, art.Property, art.Property, string(art.Case))
 			os.Exit(2)
 		}
